@@ -76,10 +76,10 @@ Proof. intros. exact (decode_faithful_all fp enc_len CS cache_add cache0 thresho
 Print Assumptions decode_faithful_promrw.
 
 Theorem decode_faithful_influx :
-  forall fp enc_len CS cache_add cache0 threshold flush_limit ctx_ttl precision (body : list iline),
-  exists cs, decode fp enc_len CS cache_add cache0 threshold flush_limit ctx_ttl (BInflux precision body) = Done cs /\
-             Forall chunk_rect cs /\ rows_of cs = rows_spec fp ctx_ttl (entries_influx precision body).
-Proof. intros. exact (decode_faithful_all fp enc_len CS cache_add cache0 threshold flush_limit ctx_ttl (BInflux precision body)). Qed.
+  forall fp enc_len CS cache_add cache0 threshold flush_limit ctx_ttl precision (ck : clock) (body : list iline),
+  exists cs, decode fp enc_len CS cache_add cache0 threshold flush_limit ctx_ttl (BInflux precision ck body) = Done cs /\
+             Forall chunk_rect cs /\ rows_of cs = rows_spec fp ctx_ttl (entries_influx precision ck body).
+Proof. intros. exact (decode_faithful_all fp enc_len CS cache_add cache0 threshold flush_limit ctx_ttl (BInflux precision ck body)). Qed.
 Print Assumptions decode_faithful_influx.
 
 Theorem decode_faithful_datadog_logs :
@@ -127,6 +127,18 @@ Theorem clock_stamped_cloudflare_rows_are_within_the_request :
           body (entries_cf ddsource ck body).
 Proof. exact cf_entries_times. Qed.
 Print Assumptions clock_stamped_cloudflare_rows_are_within_the_request.
+
+(* an Influx line with a timestamp keeps it (scaled by the precision); a line without one is stamped with the clock reading taken
+   for it, truncated to the precision (telegraf: timeFunc().Truncate(precision)): a multiple of the precision, less than one
+   unit before the reading and never after it *)
+Theorem influx_line_without_timestamp_gets_the_truncated_clock :
+  forall precision now (l : iline), 0 < precision ->
+  match il_ts l with
+  | Some t => influx_ts precision now l = wrap64 (t * precision)
+  | None => now - precision < influx_ts precision now l <= now /\ (influx_ts precision now l) mod precision = 0
+  end.
+Proof. exact influx_ts_bounds. Qed.
+Print Assumptions influx_line_without_timestamp_gets_the_truncated_clock.
 
 Theorem clock_irrelevant_for_timestamped_entries :
   forall (ck1 ck2 : clock) (body : list ddlog), Forall (fun l => dl_ts l <> 0) body -> entries_ddlog ck1 body = entries_ddlog ck2 body.
@@ -186,10 +198,10 @@ Print Assumptions decode_total_on_wellformed.
 (* Go visits the numeric fields of an Influx line in map order: whatever that order, the line contributes the
    same rows up to their order (each field is its own series) *)
 Theorem influx_field_order_irrelevant :
-  forall precision meas tags ts f1 f2, Permutation.Permutation f1 f2 ->
+  forall precision now meas tags ts f1 f2, Permutation.Permutation f1 f2 ->
   find is_message f1 = None -> find is_message f2 = None ->
-  Permutation.Permutation (influx_line_entries precision (IL meas tags f1 ts))
-                          (influx_line_entries precision (IL meas tags f2 ts)).
+  Permutation.Permutation (influx_line_entries precision now (IL meas tags f1 ts))
+                          (influx_line_entries precision now (IL meas tags f2 ts)).
 Proof. intros. now apply influx_fields_perm. Qed.
 Print Assumptions influx_field_order_irrelevant.
 
@@ -550,11 +562,13 @@ Proof. vm_compute. repeat split; repeat constructor. Qed.
 Example influx_message_line_computed :
   let l := IL "app"%string [("host", "a")]%string
               [("message", FStr "hello world"); ("status code", FIntT (-7)); ("k=v", FStr "null"); ("ok", FBoolT true);
-               ("q", FStr (String (Ascii.ascii_of_N 9) "x"))]%string 5 in
+               ("q", FStr (String (Ascii.ascii_of_N 9) "x"))]%string (Some 5) in
   iline_modelled l = true /\
-  map e_msg (influx_line_entries 1000 l) =
+  map e_msg (influx_line_entries 1000 0 l) =
     [("message=""hello world"" statuscode=-7 kv=""null"" ok=true q=""" ++ String (Ascii.ascii_of_N 92) "tx""")%string] /\
-  map e_msg (influx_line_entries 1 (IL "app"%string [] [("message", FStr "a=b c")]%string 5)) = ["a=b c"%string].
+  map e_msg (influx_line_entries 1 0 (IL "app"%string [] [("message", FStr "a=b c")]%string (Some 5))) = ["a=b c"%string] /\
+  (* a line without a timestamp: the clock reading truncated to the precision (here: seconds) *)
+  map e_ts (influx_line_entries 1000000000 1700000000123456789 (IL "app"%string [] [("v", FNum 0%N)]%string None)) = [1700000000000000000].
 Proof. vm_compute. repeat split. Qed.
 
 (* a label list with names outside ASCII (the oracle accepts e-acute and the CJK rune as letters, the Arabic-Indic digit three as a digit) *)
